@@ -210,6 +210,7 @@ class C05Machine(Machine):
         self.started = False
         self.flood_done = False
         self.flood_sample = []
+        self.last_names = []
 
     # ----------------------------------------------------------- generation
     def gen_op(self, rng):
@@ -584,7 +585,17 @@ class C05Machine(Machine):
             return {"result": "not_a_record"}
         if robj is not None:
             rd = observe.record_dump(robj)
+        if op["op"] == "add_prefix" and not irr:
+            # add_prefix is "build a Record from the arguments, then add_record": what it builds (it may
+            # leave out blank or redundant entries of the collections) is seen by making the same call on a
+            # converter WITHOUT records; that record is the submission the model is fed
+            eff = self._built_by_add_prefix(op, cs, merge)
+            if eff is not None:
+                if eff != rd:
+                    self.event("add_prefix_builds_another_record_than_its_arguments_spell")
+                rd = eff
         mrec = MRecord.from_dump(rd)
+        self.last_names = [rd["prefix"], *rd["prefix_synonyms"]][:4]
         self.n_calls += 1
         if self.observe_every > 1 and self.n_calls % self.observe_every != 0:
             return self._apply_unobserved(op, rd, mrec, site, cs, merge, robj, cerr, irr)
@@ -747,8 +758,17 @@ class C05Machine(Machine):
     def _extras(self, conv):
         if getattr(self, "_xdir", None) is None:
             self._xdir = observe.scratch_dir("c05x_")
-        return {"written_epm": observe.written_extended_prefix_map(self.curies, conv, self._xdir),
-                "bulk": observe.bulk_answers(conv, self.bulk_cells, self._xdir)}
+        out = {"written_epm": observe.written_extended_prefix_map(self.curies, conv, self._xdir),
+               "bulk": observe.bulk_answers(conv, self.bulk_cells, self._xdir)}
+        # what functions that CONSUME the converter make of it (they read per-record state that no query reads)
+        names = list(dict.fromkeys(list(getattr(self, "last_names", [])) + sorted(r.prefix for r in conv.records)[:2]))[:6]
+
+        def keys(conv2):
+            return real_keys([observe.record_dump(r) for r in conv2.records])
+
+        out["get_subconverter"] = {n: observe.call(lambda n=n: keys(conv.get_subconverter([n]))) for n in names}
+        out["chain_self"] = observe.call(lambda: keys(self.curies.chain([conv])))
+        return out
 
     def close(self):
         if getattr(self, "_xdir", None) is not None:
@@ -789,6 +809,24 @@ class C05Machine(Machine):
         if not self.dirty:
             self._check_consistent(self.snap, "flood of lookups", submitted=None, target=None)
         return {"flood": len(asked)}
+
+    def _built_by_add_prefix(self, op, cs, merge):
+        c = self.curies
+        r0 = op["record"]
+        try:
+            e = c.Converter([], delimiter=self.delimiter0)
+            coll = COLLECTION_TYPES[op.get("coll", "list")]
+            kw = {}
+            if r0["prefix_synonyms"] or op.get("coll", "list") != "omit":
+                kw["prefix_synonyms"] = coll(r0["prefix_synonyms"])
+            if r0["uri_prefix_synonyms"] or op.get("coll", "list") != "omit":
+                kw["uri_prefix_synonyms"] = coll(r0["uri_prefix_synonyms"])
+            e.add_prefix(r0["prefix"], r0["uri_prefix"], **flag_kwargs(op, cs, merge), **kw)
+            if len(e.records) != 1:
+                return None
+            return observe.record_dump(e.records[0])
+        except Exception:  # noqa: BLE001 - refused on its own: handled where the real call is judged
+            return None
 
     def _refused_on_its_own(self, op, robj, cs, merge):
         """Does a converter WITHOUT records (same delimiter) refuse the same call with a ValueError too?"""
@@ -932,9 +970,12 @@ class C05Machine(Machine):
             fresh_records = []
             for r, d in zip(conv.records, copy.deepcopy(dumps)):
                 try:
-                    fresh_records.append(c.Record(**d))
+                    nr = c.Record(**d)
+                    if observe.record_dump(nr) != observe.record_dump(r):
+                        raise ValueError("the Record class does not reproduce this record from its data")
+                    fresh_records.append(nr)
                 except Exception:  # noqa: BLE001
-                    self.event("record_refused_by_its_own_class_copied_instead")
+                    self.event("record_refused_or_altered_by_its_own_class_copied_instead")
                     fresh_records.append(copy.deepcopy(r))
             fresh = c.Converter(fresh_records, delimiter=self.delimiter0)
         except Exception as e:  # noqa: BLE001
